@@ -27,7 +27,15 @@
    * X_object_reuse: a call on the object (workspace, preconditioner state) reached after ANY
      history of earlier calls = the same call on a fresh object;
    * amg_simulates + make_solver_amg_X_reuse: the instance P = amg (Amg.apply with its scratch);
-   * X_sp_stateless: with a stateless preconditioner the state-passing text IS the pure text. *)
+   * X_sp_stateless: with a stateless preconditioner (PS := unit) the state-passing text IS the pure
+     text: whole output equal, no hypothesis (stronger than the componentwise form under lengths).
+   GMRES(M) and FGMRES(M): ReuseProofs3.v.
+
+   Shape of the statements: a call of the object is a record [kcall] = (A, prm, rhs, x0) (both
+   make_solver::operator() overloads), [call_ok n c] = A length preserving on length n, rhs and x0
+   of length n; the object state is the pair (workspace, preconditioner state); [X_obj_history]
+   folds the calls.  On the exception exits of BiCGStab the pure model returns the incoming
+   workspace, and so does bicgstab_sp (the preconditioner state returned is the one reached). *)
 From Amgcl Require Import Scalar Vec Crs Kernels KernelsProofs MatOps MatOpsProofs Krylov KrylovProofs KrylovProofs2
   Amg AmgExec AmgProofs AmgProofs2 AmgProofs3.
 From Coq Require Import Lia.
